@@ -227,6 +227,24 @@ static std::string dumpSlot(int k)
 
 template <class R, class T> static std::string rScalarT(R& r) { T x; r >> x; return hexW(Bits<T>::of(x), (int)sizeof(T)); }
 
+// `r >> array` for an array whose length was set by the caller (File, Socket)
+template <class R, class T> static std::string rArrayT(R& r, int n)
+{
+	Array<T> a(n);
+	if (n) memset((void*)&a[0], 0, n * sizeof(T));
+	r >> a;
+	if (a.length() != n) return "err array-length-changed-to-" + str(a.length());
+	return dumpArray(a);
+}
+
+template <class R> static std::string rArray(R& r, const std::string& ty, int n)
+{
+#define X(nm, T) if (ty == nm) return rArrayT<R, T>(r, n);
+	FOR_TYPES(X)
+#undef X
+	return "bad-op";
+}
+
 template <class R> static std::string rScalar(R& r, const std::string& ty)
 {
 #define X(n, T) if (ty == n) return rScalarT<R, T>(r);
@@ -308,6 +326,14 @@ template <class S> static std::string writeOn(S& s, const Toks& t)
 		wSlot(s, k);
 		std::string o = observe();
 		return o + " " + dumpSlot(k); // bytes appended, then the caller's array as it is now
+	}
+	if (op == "was") {
+		for (size_t i = 1; i < t.size(); i++) if (!validHex(t[i])) return "bad-op";
+		Array<String> a;
+		for (size_t i = 1; i < t.size(); i++) { std::string d = unhex(t[i]); a << String(d.data(), (int)d.size()); }
+		s << (const Array<String>&)a;
+		for (size_t i = 1; i < t.size(); i++) { std::string d = unhex(t[i]); if (a[(int)i - 1].length() != (int)d.size() || memcmp(*a[(int)i - 1], d.data(), d.size())) return "err array-argument-modified-by-the-write"; }
+		return observe();
 	}
 	if ((op == "wb" || op == "ws" || op == "wz") && t.size() == 2) {
 		if (!validHex(t[1])) return "bad-op";
@@ -402,7 +428,27 @@ static std::string step(const Toks& t)
 		setSlot((int)(num(t[1]) % NSLOT), t[2], blob);
 		return "ok";
 	}
-	bool isWrite = op == "wv" || op == "endian" || op == "w" || op == "wa" || op == "wb" || op == "ws" || op == "wz";
+	if (op == "wself" || op == "wselfpart") {
+		if (st.reading) return "closed";
+		if (st.kind != K_SB) return "na";
+		if (op == "wself" && t.size() == 1) {
+			*st.sb << **st.sb; // the buffer's own bytes as a ByteArray
+			return observe();
+		}
+		if (op == "wselfpart" && t.size() == 3) {
+			for (int j = 1; j < 3; j++) {
+				if (t[j].empty() || t[j].size() > 9) return "bad-op";
+				for (size_t i = 0; i < t[j].size(); i++) if (t[j][i] < '0' || t[j][i] > '9') return "bad-op";
+			}
+			long long len = st.sb->length();
+			long long a = num(t[1]) % (len + 1);
+			long long n = num(t[2]) % (len - a + 1);
+			st.sb->write(st.sb->data() + a, (int)n); // a piece of the buffer itself
+			return observe();
+		}
+		return "bad-op";
+	}
+	bool isWrite = op == "was" || op == "wv" || op == "endian" || op == "w" || op == "wa" || op == "wb" || op == "ws" || op == "wz";
 	if (isWrite) {
 		if (st.reading) return "closed";
 		if (st.kind == K_SB) return writeOn(*st.sb, t);
@@ -410,7 +456,7 @@ static std::string step(const Toks& t)
 		return writeOn(*st.ws, t);
 	}
 
-	bool isRead = op == "rendian" || op == "r" || op == "rb" || op == "skip" || op == "rs";
+	bool isRead = op == "rsame" || op == "ra" || op == "rendian" || op == "r" || op == "rb" || op == "skip" || op == "rs";
 	if (!isRead) return "bad-op";
 	if (!st.reading) return "not-reading";
 	size_t remaining = st.written.size() - st.pos;
@@ -436,6 +482,18 @@ static std::string step(const Toks& t)
 		if (st.kind == K_SB && (size_t)st.sbr->length() != st.written.size() - st.pos) return "err reader-position";
 		return r;
 	}
+	if (op == "ra" && t.size() == 3) {
+		int w = widthOf(t[1]);
+		if (!w || t[2].empty() || t[2].size() > 3) return "bad-op";
+		for (size_t i = 0; i < t[2].size(); i++) if (t[2][i] < '0' || t[2][i] > '9') return "bad-op";
+		int n = (int)num(t[2]);
+		if (st.kind == K_SB) return "na";
+		if (remaining < (size_t)n * w) return "eof";
+		if (t[1] == "b") for (int i = 0; i < n; i++) if ((byte)st.written[st.pos + i] > 1) return "na-bool";
+		std::string r = st.kind == K_FILE ? rArray(*st.rf, t[1], n) : rArray(*st.rs, t[1], n);
+		st.pos += (size_t)n * w;
+		return r;
+	}
 	if ((op == "rb" || op == "skip") && t.size() == 2) {
 		for (size_t i = 0; i < t[1].size(); i++) if (t[1][i] < '0' || t[1][i] > '9') return "bad-op";
 		if (t[1].empty() || t[1].size() > 18) return "bad-op";
@@ -454,19 +512,22 @@ static std::string step(const Toks& t)
 		st.pos += n;
 		return r;
 	}
-	if (op == "rs" && t.size() == 1) {
+	if (op == "rsame" && t.size() == 2 && !validHex(t[1])) return "bad-op";
+	if ((op == "rs" && t.size() == 1) || (op == "rsame" && t.size() == 2)) {
 		if (st.kind == K_SB || remaining < 4) return "na";
 		const char* p = st.written.data() + st.pos;
 		int n;
 		if (st.re == ENDIAN_BIG) n = be32(p);
 		else if (st.re == ENDIAN_LITTLE) n = le32(p);
 		else memcpy(&n, p, 4);
-		if (n < 0 || (size_t)n > remaining - 4) return "na";
+		// Socket: fewer than n bytes pending would block (and n bytes are allocated first): not exercised
+		if (st.kind == K_SOCK && n >= 0 && (size_t)n > remaining - 4) return "na";
+		size_t take = n < 0 ? 0 : ((size_t)n > remaining - 4 ? remaining - 4 : (size_t)n);
 		String x;
 		if (st.kind == K_FILE) *st.rf >> x;
 		else *st.rs >> x;
-		st.pos += 4 + n;
-		if (x.length() < 0 || x.length() > n) return "err string-of-length-" + str(x.length()) + "-for-prefix-" + str(n);
+		st.pos += 4 + take;
+		if (x.length() < 0 || (size_t)x.length() > take) return "err string-of-length-" + str(x.length()) + "-for-prefix-" + str(n);
 		return str(x.length()) + " " + hex(*x, x.length());
 	}
 	return "bad-op";
